@@ -30,7 +30,46 @@ func genC14Grammar(seed int) *gram.Grammar {
 	if seed%6 == 4 {
 		graftNegatedNegationGroup(gr, seed/6)
 	}
+	if seed%6 == 2 {
+		graftCapturedBracket(gr, seed/6)
+	}
 	return gr
+}
+
+// graftCapturedBracket appends `@{ x }?`, `@[ x ]!`, `( @{ x } )?` ... (a capture right in front of a bracket group,
+// with a modifier behind it) and a field of its own to one production: the printer must not put the two modifiers
+// side by side (C14-r12m1). Appended at the end, so the indexes of the other fields stay as they are.
+func graftCapturedBracket(g *gram.Grammar, k int) {
+	var leaf *gram.Expr
+	var find func(e *gram.Expr)
+	find = func(e *gram.Expr) {
+		if e == nil || leaf != nil {
+			return
+		}
+		if e.Kind == gram.KLit || e.Kind == gram.KRef {
+			leaf = e
+			return
+		}
+		for _, kid := range e.Kids {
+			find(kid)
+		}
+	}
+	for _, p := range g.Prods {
+		find(p.Expr)
+	}
+	if leaf == nil || len(g.Prods) == 0 {
+		return
+	}
+	x := *leaf
+	in := gram.Group([]string{"*", "?"}[k%2], &x)
+	in.Style = 1
+	p := g.Prods[(k/8)%len(g.Prods)]
+	c := gram.Cap(in)
+	c.Field = len(p.Fields)
+	p.Fields = append(p.Fields, gram.Field{Kind: gram.FStrs, Prod: -1, Uni: -1})
+	o := gram.Group([]string{"?", "!"}[(k/2)%2], c)
+	o.Style = 2 + (k/4)%2
+	p.Expr = gram.Seq(p.Expr, o)
 }
 
 // graftNegatedNegationGroup puts `~( (~x)* )` (the inner group with any modifier and bracket style, optionally with a
